@@ -1,9 +1,539 @@
-//! C24 (placeholder while C26 is brought up)
+//! C24: LSP compilation scheduling neither hangs nor drops edits (controlled schedules over the real server).
+use crate::lsp::*;
+use crate::sched::*;
+use proptest::prelude::*;
+use serde_json::{json, Value};
 use vcommon::*;
-pub fn run(_ctx: &Ctx) {
-    eprintln!("C24 not built yet");
-    std::process::exit(2);
+
+// ---------------------------------------------------------------------------------------------
+// choosers
+
+/// proptest schedule: choice k picks `idx(k, enabled.len())`; after the vector is used up the default policy runs
+struct VecChooser<'a> {
+    v: &'a [u16],
 }
-pub fn replay(_case: &serde_json::Value) -> Result<(), String> {
-    Err("not built yet".into())
+impl Chooser for VecChooser<'_> {
+    fn choose(&mut self, depth: usize, enabled: &[Trans]) -> Option<usize> {
+        self.v.get(depth).map(|c| idx(*c, enabled.len()))
+    }
+}
+
+/// explicit replay: (actor, label) pairs; stops choosing at the first pair that is not enabled
+struct ReplayChooser {
+    steps: Vec<(usize, String)>,
+}
+impl Chooser for ReplayChooser {
+    fn choose(&mut self, depth: usize, enabled: &[Trans]) -> Option<usize> {
+        let (a, l) = self.steps.get(depth)?;
+        enabled.iter().position(|t| t.actor == *a && t.label == l.as_str())
+    }
+}
+
+/// pinned schedules written as directives
+#[derive(Clone, Debug)]
+pub enum Dir {
+    /// step the actor while it is enabled and the label of its next step differs from the given one
+    Until(usize, &'static str),
+    /// step the actor while it is enabled (a handler: until done or parked; the worker: until idle at recv)
+    ToBlock(usize),
+}
+struct DirChooser {
+    dirs: Vec<Dir>,
+    at: usize,
+}
+impl Chooser for DirChooser {
+    fn choose(&mut self, _depth: usize, enabled: &[Trans]) -> Option<usize> {
+        loop {
+            let d = self.dirs.get(self.at)?;
+            let (actor, until) = match d {
+                Dir::Until(a, l) => (*a, Some(*l)),
+                Dir::ToBlock(a) => (*a, None),
+            };
+            match enabled.iter().position(|t| t.actor == actor) {
+                Some(k) if until != Some(enabled[k].label) => return Some(k),
+                _ => self.at += 1,
+            }
+        }
+    }
+}
+
+// ---------------------------------------------------------------------------------------------
+// independence of steps (for the sleep-set enumeration): which shared object a label touches
+
+#[derive(Clone, Copy, PartialEq, Eq, Debug)]
+enum Obj {
+    IsCompiling,
+    Retrigger,
+    Channel,
+    Notify,
+    LastState,
+    /// document + file on disk (written by didChange, read by the compiler)
+    Text,
+    /// anything / unknown: dependent with everything
+    All,
+}
+fn access(label: &str) -> Vec<(Obj, bool)> {
+    // (object, is_write)
+    match label {
+        "worker:recv" => vec![(Obj::Channel, true)],
+        "worker:retrigger=false(start)" | "worker:retrigger=false" | "send:retrigger=true" => vec![(Obj::Retrigger, true)],
+        // the step that starts here runs into the compiler, which reads the source file
+        "worker:is_compiling=true" => vec![(Obj::IsCompiling, true), (Obj::Text, false)],
+        "worker:is_compiling=false" | "open:is_compiling=true" => vec![(Obj::IsCompiling, true)],
+        // the compiler re-reads files / writes the token map between its abort checks
+        "core:retrigger?" => vec![(Obj::Retrigger, false), (Obj::Text, false)],
+        "worker:last_state=" => vec![(Obj::LastState, true)],
+        "worker:rx.is_empty?" | "send:is_full?" | "wait:rx.is_empty?" => vec![(Obj::Channel, false)],
+        "worker:notify" => vec![(Obj::Notify, true)],
+        "send:is_compiling?" => vec![(Obj::IsCompiling, false)],
+        "wait:is_compiling?" => vec![(Obj::IsCompiling, false), (Obj::LastState, false)],
+        "send:try_recv" | "send:send" => vec![(Obj::Channel, true)],
+        // awaiting registers with / consumes the notification; the loop head after it creates the next Notified
+        "wait:notified" | "resume(notified)" => vec![(Obj::Notify, true)],
+        _ => vec![(Obj::All, true)],
+    }
+}
+fn independent(a: &Trans, b: &Trans) -> bool {
+    // handlers share one executor: never independent of each other
+    if a.actor != WORKER && b.actor != WORKER {
+        return false;
+    }
+    if a.actor == b.actor {
+        return false;
+    }
+    // a handler step runs on to the next stop: it may pass through the creation of a Notified (loop head of
+    // wait_for_parsing) and through document/file writes, which no label announces; be conservative there
+    let widen = |t: &Trans, v: &mut Vec<(Obj, bool)>| {
+        if t.actor != WORKER {
+            match t.label {
+                "start" | "resume(written)" => v.push((Obj::All, true)),
+                "send:send" | "wait:rx.is_empty?" | "resume(notified)" | "wait:notified" | "open:is_compiling=true" => v.push((Obj::Notify, true)),
+                _ => {}
+            }
+        }
+    };
+    let mut xa = access(a.label);
+    let mut xb = access(b.label);
+    widen(a, &mut xa);
+    widen(b, &mut xb);
+    for (oa, wa) in &xa {
+        for (ob, wb) in &xb {
+            if *oa == Obj::All || *ob == Obj::All {
+                return false;
+            }
+            if oa == ob && (*wa || *wb) {
+                return false;
+            }
+        }
+    }
+    true
+}
+
+/// stateless DFS with sleep sets: one complete execution per Mazurkiewicz trace (plus sleep-blocked ones)
+struct DfsNode {
+    enabled: Vec<Trans>,
+    sleep: Vec<Trans>,
+    /// index into `enabled` of the transition currently being explored below this node
+    cur: usize,
+}
+struct DfsChooser<'a> {
+    stack: &'a mut Vec<DfsNode>,
+    blocked: bool,
+    /// the replayed prefix did not find the recorded transition enabled: the execution is not deterministic
+    diverged: bool,
+}
+impl Chooser for DfsChooser<'_> {
+    fn choose(&mut self, depth: usize, enabled: &[Trans]) -> Option<usize> {
+        if depth < self.stack.len() {
+            // replaying the prefix
+            let n = &self.stack[depth];
+            let want = &n.enabled[n.cur];
+            let k = enabled.iter().position(|t| t == want);
+            if k.is_none() {
+                self.diverged = true;
+            }
+            return k.or(Some(0));
+        }
+        // new node: sleep set inherited from the parent
+        let sleep: Vec<Trans> = match self.stack.last() {
+            None => vec![],
+            Some(p) => {
+                let taken = &p.enabled[p.cur];
+                let mut s: Vec<Trans> = p.sleep.iter().filter(|u| independent(u, taken)).cloned().collect();
+                for u in &p.enabled[..p.cur] {
+                    if !p.sleep.contains(u) && independent(u, taken) && !s.contains(u) {
+                        s.push(u.clone());
+                    }
+                }
+                s
+            }
+        };
+        let cur = match (0..enabled.len()).find(|k| !sleep.contains(&enabled[*k])) {
+            Some(k) => k,
+            None => {
+                self.blocked = true;
+                return None;
+            }
+        };
+        self.stack.push(DfsNode { enabled: enabled.to_vec(), sleep, cur });
+        Some(cur)
+    }
+}
+/// advance the DFS stack to the next unexplored branch; false when the enumeration is complete
+fn dfs_backtrack(stack: &mut Vec<DfsNode>) -> bool {
+    while let Some(n) = stack.last_mut() {
+        let next = (n.cur + 1..n.enabled.len()).find(|k| !n.sleep.contains(&n.enabled[*k]));
+        match next {
+            Some(k) => {
+                n.cur = k;
+                return true;
+            }
+            None => {
+                stack.pop();
+            }
+        }
+    }
+    false
+}
+
+// ---------------------------------------------------------------------------------------------
+// oracle
+
+pub struct Verdict {
+    pub signature: String,
+    pub summary: String,
+}
+fn actor_name(script: &[Ev], a: usize) -> String {
+    if a == WORKER {
+        "W".into()
+    } else {
+        format!("H{}:{}", a, script[a].kind())
+    }
+}
+fn trace_json(script: &[Ev], o: &Outcome) -> Value {
+    json!(o.trace.iter().map(|s| format!("{} {}", actor_name(script, s.actor), s.label)).collect::<Vec<_>>())
+}
+
+/// None = property holds on this execution
+pub fn judge(script: &[Ev], o: &Outcome) -> Result<Option<Verdict>, String> {
+    if let Some(e) = &o.harness_error {
+        if let Some(p) = e.strip_prefix("WORKER-PANIC ") {
+            return Ok(Some(Verdict { signature: format!("worker-panic:{}", p.split(" :: ").next().unwrap_or("")), summary: format!("the compilation thread panicked: {p}") }));
+        }
+        return Err(e.clone());
+    }
+    // (a) nothing can run any more, yet a handler has not returned: the worker is idle at recv on an empty
+    // channel and the handler is registered at a Notify nobody will ever notify (structural, no timeout)
+    if !o.stuck.is_empty() {
+        let kinds: Vec<&str> = o.stuck.iter().map(|i| script[*i].kind()).collect();
+        return Ok(Some(Verdict {
+            signature: format!("hang:waiters={};is_compiling={};queued={};last_state={}", kinds.join("+"), o.snapshot.is_compiling, o.snapshot.queued, o.snapshot.last_compilation_state),
+            summary: format!(
+                "no compilation is running or pending (worker idle in recv, channel empty) but {:?} never returned: {:?}",
+                o.stuck.iter().map(|i| actor_name(script, *i)).collect::<Vec<_>>(),
+                o.snapshot
+            ),
+        }));
+    }
+    if let Some(l) = &o.disk_lag {
+        return Ok(Some(Verdict { signature: "compile-requested-before-text-on-disk".into(), summary: format!("a handler requested a compilation while the file on disk was not its document ({l})") }));
+    }
+    // (b) quiescent: the compiled program shows the marker of the server's current document and no other
+    if o.token_markers != o.doc_markers {
+        // which requests were sent, in order
+        let sends: Vec<usize> = o.trace.iter().filter(|s| s.label == "send:send").map(|s| s.actor).collect();
+        let last_change_send = sends.iter().rposition(|a| matches!(script[*a], Ev::Change(_)));
+        let unversioned_after = match last_change_send {
+            Some(k) => sends[k + 1..].iter().any(|a| !matches!(script[*a], Ev::Change(_))),
+            None => false,
+        };
+        let sig = if unversioned_after { "lost-edit:unversioned-request-sent-after-last-change".to_string() } else { "lost-edit:last-request-was-the-latest-change".to_string() };
+        return Ok(Some(Verdict {
+            signature: sig,
+            summary: format!("at quiescence the token map has markers {:?} but the server's document has {:?} (flags {:?})", o.token_markers, o.doc_markers, o.snapshot),
+        }));
+    }
+    if o.snapshot.is_compiling || o.snapshot.retrigger_compilation {
+        // not demanded by the property text: recorded as a class only
+    }
+    Ok(None)
+}
+
+/// at least one handler step between two worker steps of the same compilation
+fn nontrivial(o: &Outcome) -> bool {
+    let mut in_compile = false;
+    let mut handler_inside = false;
+    for s in &o.trace {
+        if s.actor == WORKER {
+            if s.label == "worker:is_compiling=true" {
+                in_compile = true;
+                handler_inside = false;
+            } else if s.label == "worker:recv" {
+                in_compile = false;
+            } else if in_compile && handler_inside {
+                return true;
+            }
+        } else if in_compile {
+            handler_inside = true;
+        }
+    }
+    false
+}
+
+// ---------------------------------------------------------------------------------------------
+// cases
+
+#[derive(Clone, Debug)]
+pub struct Case {
+    pub script: Vec<Ev>,
+    pub schedule: Vec<u16>,
+}
+fn script_strategy() -> impl Strategy<Value = Vec<Ev>> {
+    prop::collection::vec(0u8..6, 1..=4).prop_map(|ks| {
+        let mut v = vec![Ev::Open];
+        let mut ver = 0u8;
+        for k in ks {
+            v.push(match k {
+                0..=2 => {
+                    ver += 1;
+                    Ev::Change(ver)
+                }
+                3 => Ev::Save,
+                4 => Ev::Symbols,
+                _ => Ev::Open,
+            });
+        }
+        v
+    })
+}
+fn strategy() -> impl Strategy<Value = Case> {
+    (script_strategy(), prop::collection::vec(any::<u16>(), 0..140)).prop_map(|(script, schedule)| Case { script, schedule })
+}
+fn case_json(script: &[Ev], o: Option<&Outcome>) -> Value {
+    let mut j = json!({"script": script});
+    if let Some(o) = o {
+        j["steps"] = json!(o.trace.iter().map(|s| json!([if s.actor == WORKER { -1 } else { s.actor as i64 }, s.label])).collect::<Vec<_>>());
+        j["trace"] = trace_json(script, o);
+        j["final"] = json!({"token_markers": o.token_markers, "doc_markers": o.doc_markers, "flags": format!("{:?}", o.snapshot), "stuck": o.stuck});
+    }
+    j
+}
+
+fn execute(script: &[Ev], chooser: &mut dyn Chooser) -> Result<Outcome, String> {
+    let w = World::new(script)?;
+    Ok(w.run(chooser))
+}
+
+/// the schedules that exhibited the defects repaired by the `fix:` commits, and the one known finding
+fn pinned() -> Vec<(&'static str, Vec<Ev>, Vec<Dir>)> {
+    let w = WORKER;
+    vec![
+        // lost wake-up: the handler has decided to wait, the worker finishes and notifies, then the handler awaits
+        ("lost-wakeup", vec![Ev::Open], vec![Dir::Until(0, "wait:notified"), Dir::ToBlock(w), Dir::ToBlock(0)]),
+        ("lost-wakeup-symbols", vec![Ev::Open, Ev::Symbols], vec![Dir::Until(0, "wait:notified"), Dir::ToBlock(0), Dir::Until(1, "wait:notified"), Dir::ToBlock(w), Dir::ToBlock(1), Dir::ToBlock(0)]),
+        // didOpen: the whole compilation runs between the handler's send and its is_compiling = true
+        ("open-flag-after-send", vec![Ev::Open], vec![Dir::Until(0, "wait:is_compiling?"), Dir::ToBlock(w), Dir::ToBlock(0)]),
+        ("open-flag-after-send-2", vec![Ev::Open], vec![Dir::Until(0, "open:is_compiling=true"), Dir::ToBlock(w), Dir::ToBlock(0), Dir::ToBlock(w)]),
+        // stale retrigger: change 2 sees is_compiling, the worker finishes change 1 and resets, then change 2 raises the flag
+        (
+            "stale-retrigger",
+            vec![Ev::Open, Ev::Change(1), Ev::Change(2)],
+            vec![Dir::ToBlock(0), Dir::ToBlock(w), Dir::ToBlock(0), Dir::ToBlock(1), Dir::Until(w, "worker:is_compiling=false"), Dir::Until(2, "send:retrigger=true"), Dir::ToBlock(w), Dir::ToBlock(2), Dir::ToBlock(w)],
+        ),
+        // second open of a compiled project: the cached compilation is instantaneous
+        ("second-open", vec![Ev::Open, Ev::Open, Ev::Change(1)], vec![Dir::ToBlock(0), Dir::ToBlock(w), Dir::ToBlock(0), Dir::Until(1, "wait:is_compiling?"), Dir::ToBlock(w), Dir::ToBlock(1), Dir::ToBlock(2), Dir::ToBlock(w)]),
+        // KNOWN finding: a save drains the queued request of the change; its own request carries no versions
+        ("save-drains-change", vec![Ev::Open, Ev::Change(1), Ev::Save], vec![Dir::ToBlock(0), Dir::ToBlock(w), Dir::ToBlock(0), Dir::ToBlock(1), Dir::ToBlock(2), Dir::ToBlock(w), Dir::ToBlock(2)]),
+    ]
+}
+
+pub fn run(ctx: &Ctx) {
+    let rep = Report::new(
+        ctx,
+        "system under test: the real ServerState (its compilation thread, bounded(1) crossbeam channel, tokio Notify) on a one-file no-std script; actors = the compilation thread and \
+         one thread per client event, each stopped at every verif::point (and at every Pending of its handler future) and released one step at a time by the controller, so an execution \
+         is a function of (script, choices). Scripts: didOpen followed by 1-4 events from {didChange vK with marker fn vK(), didSave, documentSymbol, didOpen}; schedules: (i) pinned \
+         directive schedules of the repaired defects and the known finding, (ii) all Mazurkiewicz traces of the 2-event scripts by stateless DFS with sleep sets, (iii) proptest \
+         Vec<u16> of choices over the enabled transitions. Oracle on the real execution: (a) when no transition is enabled every handler has returned (otherwise: worker idle in recv, \
+         channel empty, handler registered at the Notify = hang, detected structurally); (b) at quiescence the vN markers in the token map equal those of the server's document; (c) a \
+         handler asks for a compilation only with its document on disk. Non-trivial = at least one handler step between two worker steps of one compilation; distinct by sha256 of the trace",
+    );
+    rep.assume("interleavings are explored at the granularity of the hook labels; handlers interleave with each other only where a handler future returns Pending (tower-lsp polls all handler futures from one task), the compilation thread interleaves with them at every label");
+    rep.assume("whether an awaited file operation returns Pending depends on timing, so file I/O is not a yield point between handlers; instead didChange yields to other handlers once, after it has updated the document and written the file (hook change:written) and before it asks for a compilation; the first didOpen therefore initialises the workspace before later events are handled");
+    rep.assume("scripts have at most 5 client events on one file of one no-std project; at most 4 handlers are in flight (tower-lsp's concurrency level)");
+    rep.assume("the retrigger_compilation read in forc_pkg::check (after compile_to_ast) has no hook and belongs to the step of the preceding check_should_abort");
+    install_hooks();
+    install_worker_panic_hook();
+    let only = std::env::var("VERIF_C24_ONLY").ok();
+    let want = |s: &str| only.as_deref().is_none_or(|o| o == s);
+    let record = |script: &[Ev], o: &Outcome, class: &str| -> bool {
+        rep.eval();
+        rep.class(class);
+        rep.class(&format!("script_len_{}", script.len()));
+        if nontrivial(o) {
+            let h = hash64(format!("{:?}{:?}", script, trace_json(script, o)).as_bytes());
+            rep.nontrivial(h);
+            rep.sample_hashed(h, || case_json(script, Some(o)));
+        }
+        match judge(script, o) {
+            Err(e) => {
+                rep.inconclusive(&e);
+                false
+            }
+            Ok(None) => true,
+            Ok(Some(v)) => {
+                rep.violation(Violation { signature: v.signature, summary: format!("script {:?}: {}", script, v.summary), replay: case_json(script, Some(o)) });
+                false
+            }
+        }
+    };
+
+    // (i) pinned schedules
+    if want("pinned") {
+        for (name, script, dirs) in pinned() {
+            match execute(&script, &mut DirChooser { dirs, at: 0 }) {
+                Ok(o) => {
+                    record(&script, &o, &format!("pinned:{name}"));
+                }
+                Err(e) => rep.inconclusive(&format!("pinned {name}: {e}")),
+            }
+        }
+    }
+
+    // (ii) exhaustive enumeration of the 2-event scripts
+    if want("enum") {
+        let budget = ctx.cases(400, 40_000);
+        let scripts = [vec![Ev::Open, Ev::Symbols], vec![Ev::Open, Ev::Save], vec![Ev::Open, Ev::Change(1)], vec![Ev::Open, Ev::Open]];
+        let results: Vec<(usize, u64, u64, bool)> = std::thread::scope(|sc| {
+            let hs: Vec<_> = scripts
+                .iter()
+                .enumerate()
+                .map(|(si, script)| {
+                    let record = &record;
+                    let rep = &rep;
+                    sc.spawn(move || {
+                        let mut stack: Vec<DfsNode> = vec![];
+                        let (mut complete, mut blocked) = (0u64, 0u64);
+                        let mut exhausted = false;
+                        loop {
+                            let mut ch = DfsChooser { stack: &mut stack, blocked: false, diverged: false };
+                            let o = match execute(script, &mut ch) {
+                                Ok(o) => o,
+                                Err(e) => {
+                                    rep.inconclusive(&format!("enumeration: {e}"));
+                                    break;
+                                }
+                            };
+                            let was_blocked = ch.blocked;
+                            if ch.diverged {
+                                rep.inconclusive("enumeration: a replayed prefix diverged (execution not deterministic)");
+                                break;
+                            }
+                            if was_blocked {
+                                // an equivalent execution is explored elsewhere; this one was finished by the default policy and is judged anyway
+                                blocked += 1;
+                            } else {
+                                complete += 1;
+                            }
+                            record(script, &o, &format!("enum:{}", script[1].kind()));
+                            if !dfs_backtrack(&mut stack) {
+                                exhausted = true;
+                                break;
+                            }
+                            if complete + blocked >= budget || rep.violation_count() > 3 {
+                                break;
+                            }
+                        }
+                        (si, complete, blocked, exhausted)
+                    })
+                })
+                .collect();
+            hs.into_iter().map(|h| h.join().unwrap()).collect()
+        });
+        rep.set_extra(
+            "enumeration",
+            json!(results.iter().map(|(si, c, b, ex)| json!({"script": scripts[*si], "traces": c, "sleep_blocked": b, "exhaustive": ex})).collect::<Vec<_>>()),
+        );
+        if results.iter().any(|r| !r.3) {
+            rep.assume("the sleep-set enumeration of a 2-event script stops at the tier's execution budget when it is not exhausted earlier (see coverage.enumeration[].exhaustive)");
+        }
+    }
+
+    // (iii) random scripts and schedules
+    if want("random") && rep.violation_count() == 0 {
+        let cases = ctx.cases(1200, 60_000);
+        let out = run_prop(ctx, 24, cases, strategy, |c| {
+            let o = execute(&c.script, &mut VecChooser { v: &c.schedule }).map_err(|e| format!("HARNESS\u{1}{e}"));
+            let o = match o {
+                Ok(o) => o,
+                Err(e) => {
+                    rep.inconclusive(&e);
+                    return Ok(());
+                }
+            };
+            rep.eval();
+            rep.class("random");
+            rep.class(&format!("script_len_{}", c.script.len()));
+            for e in &c.script[1..] {
+                rep.class(&format!("event:{}", e.kind()));
+            }
+            if nontrivial(&o) {
+                let h = hash64(format!("{:?}{:?}", c.script, trace_json(&c.script, &o)).as_bytes());
+                rep.nontrivial(h);
+                rep.sample_hashed(h, || case_json(&c.script, Some(&o)));
+            }
+            match judge(&c.script, &o) {
+                Err(e) => {
+                    rep.inconclusive(&e);
+                    Ok(())
+                }
+                Ok(None) => Ok(()),
+                Ok(Some(v)) => {
+                    // a known finding does not stop the search: it is reported once and the search goes on behind it
+                    if KNOWN_SIGS.contains(&v.signature.as_str()) {
+                        rep.class(&format!("known:{}", v.signature));
+                        rep.violation(Violation { signature: v.signature, summary: format!("script {:?}: {}", c.script, v.summary), replay: case_json(&c.script, Some(&o)) });
+                        return Ok(());
+                    }
+                    Err(format!("{}\u{1}{}\u{1}{}", v.signature, v.summary, case_json(&c.script, Some(&o))))
+                }
+            }
+        });
+        if let Some((c, reason)) = out.failure {
+            let mut parts = reason.splitn(3, '\u{1}');
+            let sig = parts.next().unwrap_or("").to_string();
+            let summary = parts.next().unwrap_or("").to_string();
+            let detail: Value = parts.next().and_then(|d| serde_json::from_str(d).ok()).unwrap_or(Value::Null);
+            rep.violation(Violation { signature: sig, summary: format!("script {:?}: {}", c.script, summary), replay: detail });
+        }
+    }
+    cleanup_process_env();
+    let inc = rep.inconclusive.lock().unwrap().len() as u64;
+    if inc * 20 > rep.evaluations.load(std::sync::atomic::Ordering::Relaxed).max(1) {
+        eprintln!("INCONCLUSIVE: {inc} executions failed in the harness: {:?}", rep.inconclusive.lock().unwrap().first());
+        let _ = rep.finish_code();
+        std::process::exit(2);
+    }
+    rep.finish();
+}
+
+/// signatures listed as status "known" in known_findings.d/vp-lsp.json (the search continues behind them)
+const KNOWN_SIGS: &[&str] = &["lost-edit:unversioned-request-sent-after-last-change"];
+
+pub fn replay(case: &Value) -> Result<(), String> {
+    install_hooks();
+    install_worker_panic_hook();
+    let script: Vec<Ev> = serde_json::from_value(case["script"].clone()).map_err(|e| format!("script: {e}"))?;
+    let steps: Vec<(usize, String)> = case["steps"]
+        .as_array()
+        .cloned()
+        .unwrap_or_default()
+        .iter()
+        .map(|s| (if s[0].as_i64() == Some(-1) { WORKER } else { s[0].as_u64().unwrap_or(0) as usize }, s[1].as_str().unwrap_or("").to_string()))
+        .collect();
+    let o = execute(&script, &mut ReplayChooser { steps })?;
+    match judge(&script, &o)? {
+        None => Ok(()),
+        Some(v) => Err(format!("{}: {}", v.signature, v.summary)),
+    }
 }
